@@ -173,3 +173,57 @@ Fixpoint n_inserts (c : scfg) (st : nstate) (szs : list N) : outcome nstate :=
 Definition n_finish (st : nstate) : nstate :=
   mk_nstate (mk_ebuf (eb_L (ns_buf st)) 0 0) (ns_chunks st + 1) (ns_creates st + 1)
             (N.max (ns_peak st) (ns_chunks st + 1)).
+
+(* ---- the sorter over a fallible ChunkCreator ----
+   write_chunk and merge_chunks both begin with `self.chunk_creator.create()?`; [cr n] is the error
+   (already converted into the crate's Error) the creator returns for its call number n, if any.
+   The calls made so far are the EvCreate events of the log. *)
+Fixpoint creates (evs : list sevent) : N :=
+  match evs with [] => 0 | EvCreate :: r => creates r + 1 | _ :: r => creates r end.
+
+Definition creator : Type := N -> option err.
+Definition cr_never : creator := fun _ => None.
+Definition cr_fail_at (j : N) (e : err) : creator := fun n => if n =? j then Some e else None.
+
+Definition fs_write_chunk (cr : creator) (mf : mergefn) (st : sstate) : outcome sstate :=
+  match cr (creates (ss_events st)) with Some e => Fail e | None => s_write_chunk mf st end.
+Definition fs_merge_chunks (cr : creator) (mf : mergefn) (st : sstate) : outcome sstate :=
+  match cr (creates (ss_events st)) with Some e => Fail e | None => s_merge_chunks mf st end.
+
+Definition fs_insert (c : scfg) (cr : creator) (mf : mergefn) (st : sstate) (k v : bytes) : outcome sstate :=
+  if (U32_MAX <? len k) || (U32_MAX <? len v) then Panic else
+  let sz := entry_sz k v in
+  do f <- eb_fits (ss_buf st) sz;
+  let threshold_exceeded := sc_threshold c <=? eb_L (ss_buf st) in
+  if f || (negb threshold_exceeded && sc_realloc c) then
+    do b <- eb_insert 80 (ss_buf st) sz;
+    Done (mk_sstate ((k, v) :: ss_pending st) b (ss_chunks st) (ss_calls st) (ss_events st))
+  else
+    do st1 <- fs_write_chunk cr mf st;
+    do b <- eb_insert 80 (ss_buf st1) sz;
+    let st2 := mk_sstate [(k, v)] b (ss_chunks st1) (ss_calls st1) (ss_events st1) in
+    if sc_max_chunks c <=? len (ss_chunks st2) then fs_merge_chunks cr mf st2 else Done st2.
+
+Definition fs_finish (cr : creator) (mf : mergefn) (st : sstate) : outcome (list entry * list (list entry)) :=
+  do st1 <- fs_write_chunk cr mf st;
+  do r <- merge_run mf (ss_calls st1) (ss_chunks st1);
+  Done (fst r, ss_chunks st1).
+
+(* a whole run: the index of the public call that ended it (number of inserts = the final call) *)
+Fixpoint fs_inserts_at (c : scfg) (cr : creator) (mf : mergefn) (st : sstate) (ins : list entry) (i : N)
+  : N * outcome sstate :=
+  match ins with
+  | [] => (i, Done st)
+  | (k, v) :: r =>
+    match fs_insert c cr mf st k v with
+    | Done st' => fs_inserts_at c cr mf st' r (N.succ i)
+    | Panic => (i, Panic)
+    | Fail e => (i, Fail e)
+    end
+  end.
+Definition fs_run (c : scfg) (cr : creator) (mf : mergefn) (ins : list entry) : N * outcome (list entry) :=
+  match fs_inserts_at c cr mf (s_new c) ins 0 with
+  | (i, Done st) => (i, do r <- fs_finish cr mf st; Done (fst r))
+  | (i, Panic) => (i, Panic)
+  | (i, Fail e) => (i, Fail e)
+  end.
